@@ -187,3 +187,75 @@ fn c13_truncated_early() {
     wit!(n == 0);
     core::mem::forget(r);
 }
+
+/// Quick-tier truncation checks with a CONCRETE cut point K (a symbolic cut point forks every read:
+/// c13_truncated_early needs > 30 min): one or more declared segments (count symbolic in 1..=255),
+/// symbolic generation date/time, the first azimuth declaring Z zones with symbolic values, the
+/// body cut after K bytes -> error, never a shortened structure.
+fn truncated_at<const K: usize, const Z: usize>() {
+    let mut b = [0u8; K];
+    let hdr: [u8; 4] = kani::any();
+    let segs: u8 = kani::any();
+    kani::assume(segs >= 1);
+    let zv: [u8; 8] = kani::any();
+    let mut i = 0;
+    while i < 4 && i < K {
+        b[i] = hdr[i];
+        i += 1;
+    }
+    if K > 5 {
+        b[5] = segs;
+    }
+    if K > 7 {
+        b[7] = Z as u8;
+    }
+    let mut i = 0;
+    while i < 4 * Z && i < 8 && 8 + i < K {
+        b[8 + i] = zv[i];
+        i += 1;
+    }
+    let r = decode_clutter_filter_map(&mut &b[..]);
+    assert!(r.is_err(), "C13: truncated body must be an error");
+    wit!(K < 6 || segs == 255);
+    core::mem::forget(r);
+}
+
+macro_rules! trunc_harness {
+    ($name:ident, $k:expr, $z:expr) => {
+        #[kani::proof]
+        #[kani::unwind(24)]
+        #[kani::stub(alloc::fmt::format, crate::stubs::fmt_format)]
+        fn $name() {
+            truncated_at::<$k, $z>();
+        }
+    };
+}
+trunc_harness!(c13_truncated_at_5, 5, 0);
+trunc_harness!(c13_truncated_at_6, 6, 0);
+trunc_harness!(c13_truncated_at_7, 7, 0);
+trunc_harness!(c13_truncated_at_13_z2, 13, 2);
+trunc_harness!(c13_truncated_at_16_z2, 16, 2);
+trunc_harness!(c13_truncated_at_40, 40, 1);
+
+/// Truncation inside the zone list of the LAST azimuth segment at a CONCRETE cut point (the symbolic
+/// cut of c13_truncated_last_zones ran out of 30 GB): one declared segment whose azimuth 359 declares
+/// two zones (symbolic values); the body ends after the first of them (730 of 734 bytes) -> error,
+/// never a structure with fewer zones than declared.
+#[kani::proof]
+#[kani::unwind(362)]
+#[kani::stub(alloc::fmt::format, crate::stubs::fmt_format)]
+fn c13_cut_last_zone_at_730() {
+    let mut b = [0u8; 730];
+    b[5] = 1;
+    b[6 + 2 * 359 + 1] = 2; // azimuth 359 declares two zones
+    let z: [u8; 4] = kani::any();
+    let mut i = 0;
+    while i < 4 {
+        b[726 + i] = z[i];
+        i += 1;
+    }
+    let r = decode_clutter_filter_map(&mut &b[..]);
+    assert!(r.is_err(), "C13: a body cut inside the last zone list must be an error");
+    wit!(z[1] == 2);
+    core::mem::forget(r);
+}
